@@ -157,10 +157,14 @@ static bool episode(bool thorough, int kind)
         static int burst = 0; if (loss_pct == 100) burst = prng_range(40, 90); if (burst > 0) { burst--; loss_pct = active ? 100 : 0; }
         sim_set_time(now_ms);
         if (active) {
-            for (int i = 0; i < nsl; i++) { if (prng_below(6) == 0) enqueue_data(i, 2); if (prng_below(14) == 0) enqueue_data(i, 1); if (prng_below(25) == 0) send_command(i); }
+            /* commands singly and in bursts: an application sends whenever CS101_Master_isChannelReady says so, also right after the previous one left */
+            static int cmd_burst[3];
+            for (int i = 0; i < nsl; i++) { if (prng_below(6) == 0) enqueue_data(i, 2); if (prng_below(14) == 0) enqueue_data(i, 1); if (prng_below(25) == 0) { send_command(i); if (prng_below(3) == 0) cmd_burst[i] = prng_range(1, 4); } else if (cmd_burst[i] > 0) { int before = next_tx[6 + i]; send_command(i); if (next_tx[6 + i] != before) cmd_burst[i]--; } }
         }
         if (!balanced) for (int i = 0; i < nsl; i++) if (CS101_Master_isChannelReady(M, addr[i])) CS101_Master_pollSingleSlave(M, addr[i]);
-        CS101_Master_run(M); carry();
+        CS101_Master_run(M);
+        if (active && !balanced && prng_below(4) == 0) { int i = prng_below(nsl); if (prng_below(2)) send_command(i); }   /* application call between two runs of the master */
+        carry();
         for (int i = 0; i < nsl; i++) CS101_Slave_run(S[i]);
         carry();
         if (balanced) { CS101_Master_run(M); carry(); }
@@ -194,9 +198,9 @@ static int queue_mode(const char* opsf, const char* implf, bool thorough)
                 uint8_t pl[40]; int len = prng_range(1, 30); for (int i = 0; i < len; i++) pl[i] = (uint8_t) prng_next();
                 CS101_ASDU a = CS101_ASDU_create(&al, false, CS101_COT_SPONTANEOUS, 0, 1, false, false); CS101_ASDU_setTypeID(a, (IEC60870_5_TypeID) pl[0]); CS101_ASDU_addPayload(a, pl, len);
                 struct sBufferFrame bf; uint8_t tmp[300]; BufferFrame_initialize(&bf, tmp, 0); CS101_ASDU_encode(a, (Frame) &bf); hexs(h, tmp, bf.msgSize);
-                fprintf(ops, "q.enq %s\n", h); CS101_Queue_enqueue(&q, a); CS101_ASDU_destroy(a);
+                fprintf(ops, "q.enq %s\n", h); fflush(ops); CS101_Queue_enqueue(&q, a); CS101_ASDU_destroy(a);
             }
-            else if (x < 92) { struct sBufferFrame bf; uint8_t tmp[300]; BufferFrame_initialize(&bf, tmp, 0); fprintf(ops, "q.deq\n"); CS101_Queue_lock(&q); Frame f = CS101_Queue_dequeue(&q, (Frame) &bf); CS101_Queue_unlock(&q); if (f) { hexs(h, tmp, bf.msgSize); fprintf(impl, "%s", h); } else fprintf(impl, "none"); }
+            else if (x < 92) { struct sBufferFrame bf; uint8_t tmp[300]; BufferFrame_initialize(&bf, tmp, 0); fprintf(ops, "q.deq\n"); fflush(ops); CS101_Queue_lock(&q); Frame f = CS101_Queue_dequeue(&q, (Frame) &bf); CS101_Queue_unlock(&q); if (f) { hexs(h, tmp, bf.msgSize); fprintf(impl, "%s", h); } else fprintf(impl, "none"); }
             else if (x < 96) { fprintf(ops, "q.flush\n"); CS101_Queue_flush(&q); }
             else { fprintf(ops, "q.state\n"); }
             /* dump of the real ring, oldest first */
